@@ -14,13 +14,14 @@
 (***************************************************************************)
 EXTENDS Integers, Sequences, TLC, Json
 
-CONSTANTS MaxUid, NonceLen
+CONSTANTS MaxUid, NonceLen,
+          UidAlphabet    \* characters of provider uids: the separator plus characters an escaping scheme would use
 VARIABLES row, js
 
 Seqs(A, lo, hi) == UNION { [1..n -> A] : n \in lo..hi }
 
 Prov == Seqs({"a", "b"}, 1, 2)
-Uids == Seqs({"a", ";", ","}, 0, MaxUid)
+Uids == Seqs(UidAlphabet, 0, MaxUid)
 Pidz == Seqs({"a", ";", ","}, 1, 3)
 Nonces == Seqs({"a", ";"}, NonceLen, NonceLen)
 
